@@ -4,6 +4,8 @@ package interp
 // generic (term-valued) equality relation.
 
 import (
+	"golang.org/x/tools/go/ssa"
+	"os"
 	"fmt"
 	"go/token"
 	"go/types"
@@ -293,8 +295,21 @@ func eqTerm(fr *frame, t types.Type, x, y value) *term.Term {
 		return eqTerm(fr, x.t, x.v, yi.v)
 	case rtype:
 		return term.BoolConst(types.Identical(x.t, y.(rtype).t))
+	case *ssa.Function:
+		// only reached by structural comparison of codec snapshots (Go itself compares
+		// functions with nil only): two nil function fields are equal
+		if yf, ok := y.(*ssa.Function); ok {
+			return term.BoolConst(x == yf)
+		}
+		return term.False
 	case bigval:
 		panic(unsupported("== on big.Int values"))
+	}
+	if os.Getenv("SYMGO_DEBUG") != "" {
+		fmt.Fprintf(os.Stderr, "uncomparable in %v\n", fr.fn)
+		for f := fr; f != nil; f = f.caller {
+			fmt.Fprintf(os.Stderr, "   called from %v\n", f.fn)
+		}
 	}
 	panic(fmt.Sprintf("comparing uncomparable type %s (%T)", t, x))
 }
